@@ -4,5 +4,6 @@ MCDim == <<2>>
 VARIABLE x
 Init == x = 0
 Next == UNCHANGED x
-Inv == IF FailedIdentities = {} THEN TRUE ELSE PrintT(<<"FAILED", FailedIdentities>>) /\ FALSE
+Inv == TRUE
+ASSUME LET f == FailedIdentities IN IF f = {} THEN PrintT(<<"IDENTITIES", Cardinality(DOMAIN IdentityTable)>>) ELSE PrintT(<<"FAILED", f>>) /\ FALSE
 =============================================================================
